@@ -8,7 +8,7 @@ import lib
 import suites
 
 PROP = 'C04'
-LEAN_TARGETS = ['CGV.Props.C04', 'CGV.Props.C04Tree', 'CGV.Props.C04Ring', 'CGV.Props.C04Bare']
+LEAN_TARGETS = ['CGV.Props.C04', 'CGV.Props.C04Tree', 'CGV.Props.C04Ring', 'CGV.Props.C04Bare', 'CGV.Props.C04Anno']
 RULE = ('ASTs of the documented graph grammar (named nodes with annotations, chains, nested branches incl. consecutive '
         'closings, digit and %nn ring bonds with bond symbols, bond symbols between nodes / before ring markers / before '
         'and after branches, explicit "-"), rendered and read by implementation and Lean model (exact dump); character-'
